@@ -75,7 +75,7 @@ CHECKS = {
     "C08": dict(
         technique="reference-model monitor: f64 path interpreter, winding number and distance to the finely sampled outline at every pixel centre of generated curved fills and clip paths",
         text="Generated paths mixing move/line/quad/cubic/arc/close (looping, cusped, coincident control points, commands after close, missing MoveTo, control points out to +-3500) under invertible transforms, both rules and AA modes, as fills and as clip paths; every pixel more than 1 px from the exact outline must be 255 inside / 0 outside. Held on the paths run. Also: diagonal curves 800-7000 px long whose turning point lies within 1/256 of the parameter range from an end, almost straight cubics of the same length, and outlines (or full turns of arc) that end 1e-6..3e-4 px from their start next to a sample row with a second shape to their right.",
-        note="Curves sampled at 256 steps in f64; in the mixed random paths arcs are taken through the control points PathBuilder::arc emitted (C20 owns their geometry); a separate workload of discs, pies and rings built with arc() is judged against the true circles, direction included.",
+        note="Curves sampled at 256 steps in f64; in the mixed random paths arcs are taken through the control points PathBuilder::arc emitted (C20 owns their geometry); a separate workload of discs, pies and rings built with arc() is judged against the true circles, direction included. One known finding (shallow-hairpin-tip-overshoot: a few pixels beyond the tip of a level hairpin thousands of pixels long) is reported as KNOWN-FINDING by a signature computed from the path's own turning points; its directed case runs on every invocation.",
         ref="DESIGN.md section 3, C08",
     ),
     "C09": dict(
